@@ -28,16 +28,41 @@ def main(path):
     case = h.cases[rp["case_index"]]
     ctx = Ctx(rp.get("model") or {}, h, case)
     out = {"reproduced": False, "obligation": rp["obligation"]}
-    try:
-        h.fn(ctx, *case)
-    except ReplayPrecondition as e:
-        out["precondition_failed"] = str(e)
-    except api.SpecRaise as e:
-        out["error"] = "spec raised %s outside ctx.spec" % e.cls
-    except Exception:
-        import traceback
-        out["error"] = traceback.format_exc()
-    failed = [n for n, ok in ctx.results if not ok]
+
+    def attempt(ctx):
+        try:
+            h.fn(ctx, *case)
+        except ReplayPrecondition as e:
+            out.setdefault("precondition_failed", str(e))
+        except api.SpecRaise as e:
+            out["error"] = "spec raised %s outside ctx.spec" % e.cls
+        except Exception:
+            import traceback
+            out["error"] = traceback.format_exc()
+        finally:
+            for p in getattr(ctx, "_patches", []):
+                try:
+                    p.stop()
+                except Exception:
+                    pass
+        return [n for n, ok in ctx.results if not ok]
+
+    failed = attempt(ctx)
+    if not failed:
+        # follow-up search seeded from the model: uninterpreted functions (xor, crypto) in the VC mean the
+        # model's bytes need not be the failing ones; redraw part of the inputs at random (VERIF_SEED)
+        import random
+        rng = random.Random(int(os.environ.get("VERIF_SEED", "0") or 0))
+        trials = int(os.environ.get("PYVC_FOLLOWUP", "300"))
+        for t in range(trials):
+            c2 = Ctx(rp.get("model") or {}, h, case)
+            c2.fuzz = rng
+            f2 = attempt(c2)
+            if f2:
+                failed = f2
+                ctx = c2
+                out["found_by_followup_trial"] = t
+                break
     out["failed_clauses"] = failed
     out["clauses_evaluated"] = len(ctx.results)
     # the refuted clause itself fails natively, or (loop / call-site obligations have no native counterpart)
